@@ -81,6 +81,9 @@ def main(argv):
         rc2 = selftest.run_for(pid, attach_evidence=True)
         if rc2 != 0:
             return rc2
+        rc2 = selftest.run_for(pid, attach_evidence=True, verbose=False, alpha=True)
+        if rc2 != 0:
+            return rc2
     return rc
 
 
